@@ -41,7 +41,7 @@ func analyse(sc cScenario) timedFacts {
 		}
 		f.eff = append(f.eff, clk)
 		switch {
-		case e.kind == "can" && f.firstCan < 0:
+		case (e.kind == "can" || e.kind == "cdl") && f.firstCan < 0:
 			f.firstCan = i
 		case e.kind == "clo" && f.firstClo < 0:
 			f.firstClo = i
@@ -60,7 +60,7 @@ func otherTerminatorAt(sc cScenario, f timedFacts, self int, t int64) bool {
 		if i == self || f.eff[i] != t {
 			continue
 		}
-		if e.kind == "can" || e.kind == "clo" || f.isAccept(e.kind) {
+		if e.kind == "can" || e.kind == "cdl" || e.kind == "clo" || f.isAccept(e.kind) {
 			return true
 		}
 	}
@@ -164,7 +164,9 @@ func checkC11(sc cScenario, r cResult) (string, string) {
 			return "accept-first", fmt.Sprintf("first acceptable response is #%d at %d, call returned %s", i, t, r.outcome)
 		}
 	}
-	if r.probeErr != "" && r.probeErr != "ctx" {
+	if r.probeErr != "" && r.probeErr != "ctx" && !strings.HasPrefix(r.probeErr, "resp") {
+		// (a response: datagrams still queued for that id reached the new registration before the
+		// cancelled context was noticed - the id was reusable)
 		return "xid-not-reusable", "a second call with the same transaction id right after the return got " + r.probeErr
 	}
 	if !r.finallyRet {
@@ -186,6 +188,7 @@ func timedOracle(name string, check func(cScenario, cResult) (string, string)) f
 		run := func(sc cScenario, tags []string) {
 			sc.probe = true
 			line := sc.line()
+			cliNoteLine(line)
 			out := runTimed(sc)
 			res.Evaluations++
 			if len(sc.evs) > 0 || len(out.txs) > 1 {
@@ -207,6 +210,18 @@ func timedOracle(name string, check func(cScenario, cResult) (string, string)) f
 		}
 		for _, s := range seeds {
 			toks := strings.Fields(s)
+			if len(toks) > 1 && (toks[0] == "client4h" || toks[0] == "client6h") && name == "c12" {
+				func() {
+					defer func() { recover() }()
+					h := cliParseHistory(toks[0], toks[1:])
+					cliNoteLine(h.line())
+					_, bad := cliRunHistory(h)
+					res.Evaluations++
+					if bad != "" {
+						res.fail(Failure{Oracle: name, Input: h.line(), What: bad, Class: "tx-bytes"})
+					}
+				}()
+			}
 			if len(toks) > 1 && (toks[0] == "client4" || toks[0] == "client6") {
 				func() {
 					defer func() { recover() }()
@@ -223,6 +238,22 @@ func timedOracle(name string, check func(cScenario, cResult) (string, string)) f
 			}
 		}
 		for i := 0; i < n; i++ {
+			if name == "c12" && i%10 == 9 {
+				// "the transmitted bytes must equal the request's encoding each time": successive
+				// calls with the same message object, changed between calls
+				h := cliGenHistory(r.Fork(), i%4 == 1)
+				cliNoteLine(h.line())
+				out, bad := cliRunHistory(h)
+				res.Evaluations++
+				res.Tags["history-same-message-mutated"]++
+				seen[hashStr(h.line())] = struct{}{}
+				if bad != "" {
+					res.fail(Failure{Oracle: name, Input: h.line(), What: bad, Class: "tx-bytes"})
+				} else if strings.Contains(out, "bad") || strings.Contains(out, "hang") || strings.Contains(out, ":other") {
+					res.fail(Failure{Oracle: name, Input: h.line(), What: "history: " + out, Class: "history"})
+				}
+				continue
+			}
 			sc, tags := genTimedScenario(r.Fork(), i%2 == 1)
 			if i%2 == 1 {
 				tags = append(tags, "v6")
@@ -237,6 +268,6 @@ func timedOracle(name string, check func(cScenario, cResult) (string, string)) f
 }
 
 func init() {
-	registerOracle(&Oracle{Name: "c11", Run: timedOracle("c11", checkC11)})
-	registerOracle(&Oracle{Name: "c12", Run: timedOracle("c12", checkC12)})
+	registerOracle(&Oracle{Name: "c11", Run: cliCrashGuard("c11", timedOracle("c11", checkC11))})
+	registerOracle(&Oracle{Name: "c12", Run: cliCrashGuard("c12", timedOracle("c12", checkC12))})
 }
